@@ -8,8 +8,11 @@ Definition own_file (file_name name : bytes) : Prop :=
 
 Definition expired (max_age now : Z) (e : dirent) : Prop := de_mtime e < now - max_age * 3600.
 
+(* the maximum age is a number of hours held in a time.Duration; ages beyond what that type can hold (about 292 years) expire nothing *)
+Definition representable (max_age : Z) : Prop := Z.abs max_age <= max_age_fit.
+
 Definition must_delete (file_name : bytes) (max_age now : Z) (e : dirent) : Prop :=
-  de_kind e = 0%N /\ own_file file_name (de_name e) /\ expired max_age now e.
+  representable max_age /\ de_kind e = 0%N /\ own_file file_name (de_name e) /\ expired max_age now e.
 
 Lemma drop_prefix_app p s : drop_prefix p (p ++ s) = Some s.
 Proof. induction p as [|x p IH]; simpl; [reflexivity|]. now rewrite N.eqb_refl. Qed.
@@ -23,14 +26,15 @@ Qed.
 
 Lemma deletes_iff fn age now e : deletes fn age now e = true <-> must_delete fn age now e.
 Proof.
-  unfold deletes, must_delete, own_file, expired. split.
-  - intro H. apply andb_true_iff in H as [H Ht]. apply andb_true_iff in H as [Hk Hn].
-    apply N.eqb_eq in Hk. apply Z.ltb_lt in Ht.
+  unfold deletes, must_delete, own_file, expired, representable, age_fits. split.
+  - intro H. apply andb_true_iff in H as [H Ht]. apply andb_true_iff in H as [H Hn]. apply andb_true_iff in H as [Hfit Hk].
+    apply N.eqb_eq in Hk. apply Z.ltb_lt in Ht. apply Z.leb_le in Hfit.
     destruct (drop_prefix (fn ++ [dot]) (de_name e)) as [suf|] eqn:Hd; [|discriminate].
     apply drop_prefix_some in Hd. unfold is_rotation_suffix in Hn. apply andb_true_iff in Hn as [Hl Hdg].
     apply Nat.eqb_eq in Hl. repeat split; try assumption.
     exists suf. rewrite Hd, <- app_assoc. repeat split; assumption.
-  - intros [Hk [[d [Hn [Hl Hdg]]] Ht]].
+  - intros [Hfit [Hk [[d [Hn [Hl Hdg]]] Ht]]].
+    replace (Z.abs age <=? max_age_fit) with true by (symmetry; apply Z.leb_le; assumption). cbn [andb].
     rewrite Hk, Hn. replace (fn ++ [dot] ++ d) with ((fn ++ [dot]) ++ d) by now rewrite <- app_assoc.
     rewrite drop_prefix_app. unfold is_rotation_suffix. rewrite Hl, Hdg. simpl.
     apply Z.ltb_lt. assumption.
@@ -54,15 +58,15 @@ Qed.
 
 Corollary keeps_young fn age now dir e :
   In e dir -> now - age * 3600 <= de_mtime e -> In e (clear_expired fn age now dir).
-Proof. intros Hin Hy. apply clear_expired_exact. split; [assumption|]. intros [_ [_ Hx]]. unfold expired in Hx. lia. Qed.
+Proof. intros Hin Hy. apply clear_expired_exact. split; [assumption|]. intros [_ [_ [_ Hx]]]. unfold expired in Hx. lia. Qed.
 
 Corollary keeps_non_regular fn age now dir e :
   In e dir -> de_kind e <> 0%N -> In e (clear_expired fn age now dir).
-Proof. intros Hin Hk. apply clear_expired_exact. split; [assumption|]. intros [Hx _]. contradiction. Qed.
+Proof. intros Hin Hk. apply clear_expired_exact. split; [assumption|]. intros [_ [Hx _]]. contradiction. Qed.
 
 Corollary keeps_foreign fn age now dir e :
   In e dir -> ~ own_file fn (de_name e) -> In e (clear_expired fn age now dir).
-Proof. intros Hin Hk. apply clear_expired_exact. split; [assumption|]. intros [_ [Hx _]]. contradiction. Qed.
+Proof. intros Hin Hk. apply clear_expired_exact. split; [assumption|]. intros [_ [_ [Hx _]]]. contradiction. Qed.
 
 (* the file being written was touched during the current interval (<= 1 h ago); max age >= 1 h *)
 Corollary keeps_current fn age now dir e :
@@ -92,6 +96,19 @@ Qed.
 Lemma own_file_shape fn name : own_file fn name -> length name = (length fn + 15)%nat.
 Proof. intros [d [E [L _]]]. subst. rewrite !app_length. simpl. lia. Qed.
 
+(* an age beyond what a time.Duration holds: the scan deletes nothing at all *)
+Theorem unrepresentable_age_deletes_nothing fn age now dir : max_age_fit < Z.abs age -> clear_expired fn age now dir = dir.
+Proof.
+  intro H. unfold clear_expired. induction dir as [|e r IH]; [reflexivity|]. cbn [filter].
+  unfold deletes at 1, age_fits. replace (Z.abs age <=? max_age_fit) with false by (symmetry; apply Z.leb_gt; assumption).
+  cbn [andb negb]. rewrite IH. reflexivity.
+Qed.
+
+(* for a representable age the deleted entries are exactly: regular file, own name, older than the cut-off *)
+Lemma must_delete_representable fn age now e : representable age ->
+  (must_delete fn age now e <-> de_kind e = 0%N /\ own_file fn (de_name e) /\ expired age now e).
+Proof. unfold must_delete. tauto. Qed.
+
 (* ---- histories of passes ---- *)
 Lemma in_apply_updates dir upd e : In e (apply_updates dir upd) <-> (In e dir /\ named (de_name e) upd = false) \/ In e upd.
 Proof.
@@ -110,7 +127,7 @@ Theorem touched_young_survives fn age dir p e :
 Proof.
   intros Hin Hy. apply pass_exact. split.
   - apply in_apply_updates. right. assumption.
-  - intros [_ [_ Hx]]. unfold expired in Hx. lia.
+  - intros [_ [_ [_ Hx]]]. unfold expired in Hx. lia.
 Qed.
 
 Lemma run_phases_snoc fn age dir ps p : run_phases fn age dir (ps ++ [p]) = pass fn age (run_phases fn age dir ps) p.
